@@ -9,6 +9,7 @@ No random instants: complete enumeration of the listed instant sets per file.
 import datetime
 import hashlib
 import json
+import shutil
 import os
 import struct
 import subprocess
@@ -516,6 +517,179 @@ def phase_strings(exe, rep, tier):
     rep.samples.append({"phase": "strings", "tz": TZ_STRINGS[0]})
 
 
+# ------------------------------------------------------------------------------------------ TZ strings, mktime direction
+def footer_only_file(tz):
+    """bytes of a version-2 TZif file without transitions whose footer is `tz` (read by zoneinfo, which has its own TZ-string reader)"""
+    def block(v):
+        return b"TZif" + v + b"\0" * 15 + struct.pack(">6I", 0, 0, 0, 0, 1, 4) + struct.pack(">iBB", 0, 0, 0) + b"UTC\0"
+    return block(b"2") + block(b"2") + b"\n" + tz.encode() + b"\n"
+
+
+def new_year_strings():
+    """rules with a transition within hours of a local New Year (the clock is set back into / forward out of the other calendar year)"""
+    out = []
+    names = [("EST5EDT", -18000, -14400), ("AAA-10BBB", 36000, 39600), ("<+0330>-3:30<+05>-5", 12600, 18000), ("XXX3YYY4", -10800, -14400)]
+    far = ["M3.2.0", "M10.1.0/3", "J120", "180/1:30"]
+    near = ["J1/0", "J1/0:30", "J1/1", "0/0", "0/0:45", "0/2", "M1.1.0/0", "M1.1.1/0:20", "M1.1.6/1", "J365/23", "J365/24", "364/23:30", "M12.5.6/23", "M12.5.0/24", "M12.4.2/2"]
+    for nm, so, do in names:
+        for f in far:
+            for k, n in enumerate(near):
+                # both references evaluate a rule per UTC calendar year (I13). That is exact for an instant u near a New Year when the
+                # transitions around it belong, by rule day, to the UTC year of u: zones west of Greenwich (local New Year after the UTC
+                # one) whose New-Year transition is written with a start-of-year notation (J1, 0, M1.1.d) and a non-negative time
+                same_year = so < 0 and do < 0 and k < 9
+                out.append(("%s,%s,%s" % (nm, f, n), so, same_year))
+                out.append(("%s,%s,%s" % (nm, n, f), so, same_year))
+    return out
+
+
+def phase_strings_mktime(exe, rep, tier):
+    """the mktime direction for TZ strings: local readings around every rule transition of 2023..2025; the valid instants tz-rs finds
+    must be the inverse image under glibc and under zoneinfo (reading a footer-only file); judged only where the two references
+    agree with each other (each has its own quirks near New Year for exotic rules)"""
+    strings = [(s, None, False) for s in TZ_STRINGS if "," in s] + new_year_strings()
+    if tier != "thorough":
+        strings = strings[:len([s for s in TZ_STRINGS if "," in s])] + new_year_strings()[::2]
+    req = []
+    for s, _, _ in strings:
+        req.append("S " + s)
+        req.append("X 2023 2026")
+    res = tzmc_dump(exe, req)
+    req, plan = [], []
+    tmpdir = tempfile.mkdtemp(prefix="tzrs-e2e-foot-")
+    try:
+        for i, (s, so, do) in enumerate(strings):
+            if not res[2 * i].startswith("OK"):
+                rep.violation({"kind": "string", "tz": s}, "well-formed POSIX string is accepted", res[2 * i])
+                continue
+            trans = [int(x) for x in res[2 * i + 1].split(" ")[1:] if x]
+            fpath = os.path.join(tmpdir, "z%d" % i)
+            open(fpath, "wb").write(footer_only_file(s))
+            try:
+                zi = zoneinfo.ZoneInfo.from_file(open(fpath, "rb"), key="z%d" % i)
+            except Exception as e:
+                rep.exclude("tz_string_not_read_by_zoneinfo")
+                continue
+            glibc_select(s, is_file=False)
+            offs = set()
+            for t in trans:
+                for u in (t - 1, t):
+                    offs.add(glibc_lookup(u)[0])
+                    offs.add(zi_lookup(zi, u)[0])
+            offs = sorted(offs)
+            if not offs:
+                continue
+            req.append("S " + s)
+            plan.append((s, None, offs, (zi, do)))
+            span = max(offs) - min(offs)
+            for t in trans:
+                for o in offs:
+                    for d in sorted(set([-span - 1, -span, -span // 2, -1, 0, 1, span // 2, span - 1, span, span + 1, -3600, 3600])):
+                        c = t + o + d
+                        dt = utc_fields(c)
+                        req.append("L %d %d %d %d %d %d" % (dt.year, dt.month, dt.day, dt.hour, dt.minute, dt.second))
+                        plan.append((s, c, t, None))
+        res = tzmc_dump(exe, req)
+        offs, zi, same_year = None, None, False
+        for (s, c, o2, z2), line in zip(plan, res):
+            if c is None:
+                offs, (zi, same_year) = o2, z2
+                glibc_select(s, is_file=False)
+                continue
+            # I13 (see phase_strings), with the one family of New-Year transitions for which per-year evaluation is exact
+            ys = set(utc_fields(c - o).year for o in offs)
+            near_ny = any(min(abs(c - o - NY[y]), abs(c - o - NY[y + 1])) < 2 * 86400 for o in offs for y in (utc_fields(c - o).year,))
+            if near_ny and not (same_year and ys == {utc_fields(o2).year}):
+                rep.exclude("tz_string_instant_within_2_days_of_new_year(glibc evaluates rules per calendar year)")
+                continue
+            rep.add("tz_string_mktime_searches")
+            if line.startswith("L ERR"):
+                rep.violation({"kind": "string_mktime", "tz": s, "local": c}, "search succeeds", line)
+                continue
+            valid_part, _, _ = line[2:].partition("|")
+            got = sorted(int(x.split(":")[0]) for x in valid_part.split(",") if x)
+            cands = [c - o for o in offs]
+            exp_g = sorted(set(u for u, o in zip(cands, offs) if glibc_lookup(u)[0] == o))
+            exp_z = sorted(set(u for u, o in zip(cands, offs) if zi_lookup(zi, u)[0] == o))
+            if exp_g != exp_z:
+                if same_year and near_ny:
+                    # the family for which glibc's per-year evaluation is exact (see new_year_strings): zoneinfo places the end of
+                    # a period that is written as a New-Year day differently; glibc alone is the reference here
+                    rep.add("tz_string_mktime_judged_against_glibc_alone")
+                else:
+                    rep.exclude("tz_string_mktime_reading_on_which_glibc_and_zoneinfo_disagree")
+                    continue
+            if len(exp_g) != 1:
+                rep.add("mktime_nontrivial")
+            if got != exp_g:
+                rep.violation({"kind": "string_mktime", "tz": s, "local": c, "reference": "glibc" + (" and zoneinfo (in agreement)" if exp_g == exp_z else "")}, exp_g, got)
+    finally:
+        for f in os.listdir(tmpdir):
+            os.remove(os.path.join(tmpdir, f))
+        os.rmdir(tmpdir)
+    rep.samples.append({"phase": "strings_mktime", "tz": strings[-1][0]})
+
+
+# ------------------------------------------------------------------------------------------ resolution of TZ values, end to end
+def phase_resolution(exe, rep, tier):
+    """TZ values resolved against a zoneinfo directory, tz-rs (TimeZoneSettings with that directory, real file system) vs glibc
+    (TZDIR): real zone names, POSIX descriptions, and files stored under names that are themselves POSIX descriptions (the file
+    wins over the description: tzset(3) tries the file first)"""
+    d = tempfile.mkdtemp(prefix="tzrs-e2e-tzdir-")
+    fat = os.path.join(DATA, "fat")
+    probes = [1751328000, 1735689600 + 86400 * 20, 1700000000, 1600000000, 1500000000 + 86400 * 10]
+    try:
+        decoys = [("HST10HDT,M3.2.0,M11.1.0", "Pacific/Honolulu"), ("EST5EDT,M3.2.0,M11.1.0", "Asia/Tokyo"), ("CET-1CEST,M3.5.0,M10.5.0", "Europe/London"),
+                  ("UTC0", "Asia/Kolkata"), ("JST-9", "America/New_York"), ("AAA-3BBB,J60,J300", "Australia/Sydney"), ("Europe", None)]
+        for name, src in decoys:
+            if src is not None:
+                with open(os.path.join(d, name), "wb") as f:
+                    f.write(open(os.path.join(fat, src), "rb").read())
+        os.makedirs(os.path.join(d, "Europe"), exist_ok=True)
+        for z in ("Paris", "London"):
+            with open(os.path.join(d, "Europe", z), "wb") as f:
+                f.write(open(os.path.join(fat, "Europe", z), "rb").read())
+        values = [n for n, s in decoys if s is not None] + [":" + n for n, s in decoys if s is not None] + ["Europe/Paris", ":Europe/London", "Europe/Nowhere", "PST8PDT,M3.2.0,M11.1.0", "NZST-12NZDT,M9.5.0,M4.1.0/3", "<+0530>-5:30", os.path.join(d, "UTC0"), ":" + os.path.join(d, "Europe", "Paris"), "HST10HDT,M3.2.0,M11.1.1"]
+        req = []
+        for v in values:
+            req.append("R %s\t%s" % (d, v))
+            for t in probes:
+                req.append("T %d" % t)
+        res = tzmc_dump(exe, req)
+        old_tzdir = os.environ.get("TZDIR")
+        os.environ["TZDIR"] = d
+        try:
+            k = 0
+            for v in values:
+                head = res[k]
+                k += 1
+                os.environ["TZ"] = v
+                time.tzset()
+                # glibc falls back to UTC for a value it cannot resolve; tz-rs reports an error: only resolvable values are compared
+                for t in probes:
+                    line = res[k]
+                    k += 1
+                    rep.add("resolution_instants")
+                    go, gn, gd = glibc_lookup(t)
+                    if not head.startswith("OK"):
+                        if v in ("Europe/Nowhere",) or v.startswith(":") and not os.path.exists(os.path.join(d, v[1:])) and not os.path.isabs(v[1:]):
+                            continue
+                        rep.violation({"kind": "resolution", "tzdir_layout": "decoys", "tz": v, "t": t}, {"offset": go, "abbr": gn}, head)
+                        continue
+                    got, err = parse_T(line)
+                    if got is None or (go, gn) != (got[0], got[1]):
+                        rep.violation({"kind": "resolution", "tzdir_layout": "decoys", "tz": v, "t": t, "reference": "glibc with TZDIR"}, {"offset": go, "abbr": gn}, {"got": got, "err": err})
+        finally:
+            if old_tzdir is None:
+                os.environ.pop("TZDIR", None)
+            else:
+                os.environ["TZDIR"] = old_tzdir
+            time.tzset()
+    finally:
+        shutil.rmtree(d, ignore_errors=True)
+    rep.samples.append({"phase": "resolution", "value": "HST10HDT,M3.2.0,M11.1.0 (a file of that name holds Pacific/Honolulu)"})
+
+
 # ------------------------------------------------------------------------------------------ TZ string grid
 MDAYS = (31, 28, 31, 30, 31, 30, 31, 31, 30, 31, 30, 31)
 GRID_Y0, GRID_Y1 = 2000, 2401          # one whole 400-year cycle plus one year
@@ -692,6 +866,25 @@ def replay(exe, path):
             got, _ = parse_T(r[1]) if r[0].startswith("OK") else (None, None)
             if got is None or got != (gl[0], gl[1], 1 if gl[2] > 0 else 0):
                 bad = True
+        elif c["kind"] == "string_mktime":
+            s_, loc = c["tz"], c["local"]
+            dt = utc_fields(loc)
+            r = tzmc_dump(exe, ["S " + s_, "L %d %d %d %d %d %d" % (dt.year, dt.month, dt.day, dt.hour, dt.minute, dt.second)])
+            glibc_select(s_, is_file=False)
+            got = sorted(int(x.split(":")[0]) for x in r[1][2:].partition("|")[0].split(",") if x) if r[1].startswith("L ") and not r[1].startswith("L ERR") else None
+            exp = sorted(set(u for u in range(loc - 100000, loc + 100001, 900) if False))
+            offs = sorted(set(glibc_lookup(loc + k * 3600)[0] for k in range(-30, 31)))
+            exp = sorted(set(loc - o for o in offs if glibc_lookup(loc - o)[0] == o))
+            print("tz-rs:", r[1], "| glibc valid:", exp)
+            if got != exp:
+                bad = True
+        elif c["kind"] == "resolution":
+            r2 = Report(os.path.join(tempfile.gettempdir(), "tzrs-e2e-replay"))
+            phase_resolution(exe, r2, "quick")
+            hits = [x for x in r2.violations if x["case"].get("tz") == c["tz"] and x["case"].get("t") == c["t"]]
+            print("resolution phase re-run:", len(r2.violations), "disagreements,", len(hits), "for this case")
+            if hits:
+                bad = True
         elif c["kind"] == "string_grid":
             r = tzmc_dump(exe, ["S " + c["tz"]])
             print("tz-rs:", r, "| expected: accepted (glibc accepts it and the order of its transitions never flips)")
@@ -728,6 +921,8 @@ def main():
     phase_mktime(exe, rep, (fat_posix_d if tier == "thorough" else fat_posix_d[::5]), tier)
     phase_mktime(exe, rep, (slim_ok if tier == "thorough" else slim_ok[::7]), tier)
     phase_strings(exe, rep, tier)
+    phase_strings_mktime(exe, rep, tier)
+    phase_resolution(exe, rep, tier)
     phase_string_grid(exe, rep, tier)
     os.makedirs(replay_dir, exist_ok=True)
     total = sum(v for k, v in rep.counts.items() if k.endswith("_instants") or k.endswith("_searches"))
@@ -736,7 +931,7 @@ def main():
         "property_id": "C10", "tier": tier, "seed": int(os.environ.get("VERIF_SEED", "0") or 0), "level": "exploration", "engine": "py/e2e.py + tzmc dump",
         "coverage": {
             "evaluations": total, "distinct_nontrivial": nontrivial,
-            "rule": "every distinct TZif file of the vendored corpus (fat posix tree, slim tree, right/ tree) x {every transition -1/0/+1, footer-rule transitions -1/0/+1 (2038..2137; thorough ..2437), calendar grid 1900..2500 (quarterly; monthly for every 6th file / thorough)} against zoneinfo (offset, abbreviation) and glibc (offset, abbreviation, isdst); right/ files against glibc through an independent leap-table mapping; local times around transitions since 1970: tz-rs valid instants == inverse image under each reference; well-formed POSIX TZ strings vs glibc TZ parser, incl. the grid of all pairs of Mm.w.d notations (quick: same or adjacent months) x offset/time variants: refused only if C11's criterion refuses, accepted ones compared at their transitions of 2023 and 2024. non-trivial = searches with 0 or >=2 valid instants + leap-second (right/) instants",
+            "rule": "every distinct TZif file of the vendored corpus (fat posix tree, slim tree, right/ tree) x {every transition -1/0/+1, footer-rule transitions -1/0/+1 (2038..2137; thorough ..2437), calendar grid 1900..2500 (quarterly; monthly for every 6th file / thorough)} against zoneinfo (offset, abbreviation) and glibc (offset, abbreviation, isdst); right/ files against glibc through an independent leap-table mapping; local times around transitions since 1970: tz-rs valid instants == inverse image under each reference; well-formed POSIX TZ strings vs glibc TZ parser, incl. the grid of all pairs of Mm.w.d notations (quick: same or adjacent months) x offset/time variants: refused only if C11's criterion refuses, accepted ones compared at their transitions of 2023 and 2024; TZ strings in the mktime direction (incl. 240 rules with a transition within hours of a local New Year): local readings around every rule transition of 2023..2025, valid instants == inverse image under glibc and zoneinfo where the two agree. non-trivial = searches with 0 or >=2 valid instants + leap-second (right/) instants",
             "samples": rep.samples or [{"note": "no sample"}], "exhaustive": True,
             "corpus_files": n_all, "distinct_files": {"fat_posix": len(fat_posix_d), "fat_right": len(fat_right_d), "slim": len(slim_d)},
             "counts": rep.counts, "excluded_by_written_rule": rep.excluded,
